@@ -14,8 +14,7 @@ coq:
 
 ocaml: coq
 	cp ocaml/driver.ml _build/driver.ml
-	cd _build && ocamlfind ocamlopt -w -a -O2 pj.mli pj.ml driver.ml -o driver 2>/dev/null || \
-	  (cd _build && ocamlfind ocamlopt -w -a pj.mli pj.ml driver.ml -o driver)
+	cd _build && ocamlfind ocamlopt -w -a pj.mli pj.ml driver.ml -o driver
 
 clean:
 	-cd coq && [ -f Makefile ] && $(MAKE) clean --no-print-directory
